@@ -77,7 +77,7 @@ func emitAbsTrace(spec absSpec, role string, steps []string, w *World, emit func
 	}
 }
 
-func init() {
+func registerAbsSlices() {
 	for name, spec := range absSpecs {
 		spec := spec
 		slices["abs"+name] = func(r *rng, n int, emit func(op, res string)) {
@@ -101,4 +101,29 @@ func init() {
 			})
 		}
 	}
+}
+
+// mkFlags: openings(0..2) openingRec invoicePaid spentBack claimTxRec csvWatch resend suspicious
+func mkFlags(a map[string]string) string {
+	o := a["openings"]
+	if o != "0" && o != "1" {
+		o = "2"
+	}
+	return o + bit(a["opening"]) + bit(a["invpaid"]) + bit(a["spentback"]) + bit(a["claimtx"]) + bit(a["csvwatch"]) + bit(a["resend"]) + bit(a["suspicious"])
+}
+
+func init() {
+	absSpecs["Mk"] = absSpec{prop: "Mk", roles: []string{"inSender", "outReceiver"}, flags: mkFlags, params: func(steps []string) string {
+		cib, sf := "0", "0"
+		for _, s := range steps {
+			if strings.HasPrefix(s, "crash") {
+				cib = "1"
+			}
+			if strings.HasPrefix(s, "fault outputscript") {
+				sf = "1"
+			}
+		}
+		return cib + " " + sf + " 0"
+	}}
+	registerAbsSlices()
 }
